@@ -148,3 +148,66 @@ pub fn c08_user_diag(_args: &[String], _seed: u64) -> Vec<String> {
     let bad = fcb1 == fcb2 && svc1 != svc2;
     vec![format!("{{\"oracle\":\"c08_user_diag\",\"status\":\"{}\",\"input\":[],\"observed\":\"request 1: DSAP {svc1:?} FCB/FCV bits {fcb1:#x}; user request_diagnostics(); well-formed data reply delivered; request 2: DSAP {svc2:?} FCB/FCV bits {fcb2:#x}\"}}", if bad { "fail" } else { "pass" })]
 }
+
+/// C03.lengths (bounded stand-in for the length dimension the Kani byte harnesses cannot reach): Set_Prm carries the user
+/// parameters and Chk_Cfg the configuration bytes exactly, for EVERY length up to the frame limit (user parameters
+/// 0..=237, configuration 0..=244), through the real serializer; also Data_Exchange with every output length 0..=244.
+pub fn c03_lengths(args: &[String], _seed: u64) -> Vec<String> {
+    std::panic::set_hook(Box::new(|_| {}));
+    let one = |kind: u8, n: usize| -> Result<(), String> {
+        let res = std::panic::catch_unwind(|| -> Result<(), String> {
+            let fdl = crate::fdl::FdlActiveStation::new(crate::fdl::Parameters::default());
+            let dp = crate::dp::__verif_native_master::vn_master_state();
+            let data: Vec<u8> = (0..n).map(|i| (i as u8).wrapping_mul(7).wrapping_add(3)).collect();
+            let mut pi_i = vec![0u8; 1];
+            let mut pi_q: Vec<u8> = if kind == 2 { data.clone() } else { vec![0u8; 1] };
+            let options = PeripheralOptions {
+                ident_number: 0x1234,
+                user_parameters: if kind == 0 { Some(&data[..]) } else { Some(&[1, 2][..]) },
+                config: if kind == 1 { Some(&data[..]) } else { Some(&[0x11][..]) },
+                max_tsdr: 100,
+                ..Default::default()
+            };
+            let mut p = Peripheral::new(8, options, &mut pi_i[..], &mut pi_q[..]);
+            p.state = match kind { 0 => PeripheralState::WaitForParam, 1 => PeripheralState::WaitForConfig, _ => PeripheralState::DataExchange };
+            let mut buf = [0u8; 300];
+            let r = p.transmit_telegram(crate::time::Instant::ZERO, &dp, &fdl, crate::fdl::TelegramTx::new(&mut buf), crate::fdl::HighPrioOnly::No);
+            let sent = match r { Ok(res) => res.bytes_sent(), Err(_) => return Err("no telegram was sent".into()) };
+            let (t, used) = match crate::fdl::Telegram::deserialize(&buf[..sent]) { Some(Ok(x)) => x, other => return Err(format!("sent bytes do not decode: {other:?}")) };
+            if used != sent { return Err(format!("{sent} bytes sent, {used} decode")); }
+            let d = match t { crate::fdl::Telegram::Data(d) => d, _ => return Err("not a data telegram".into()) };
+            match kind {
+                0 => {
+                    if d.h.dsap != Some(61) { return Err(format!("DSAP {:?}, Set_Prm is 61", d.h.dsap)); }
+                    if d.pdu.len() != 7 + n || d.pdu[7..] != data[..] { return Err(format!("Set_Prm carries {} user parameter bytes, {} configured{}", d.pdu.len().saturating_sub(7), n, if d.pdu.len() == 7 + n { " (contents differ)" } else { "" })); }
+                }
+                1 => {
+                    if d.h.dsap != Some(62) { return Err(format!("DSAP {:?}, Chk_Cfg is 62", d.h.dsap)); }
+                    if d.pdu != &data[..] { return Err(format!("Chk_Cfg carries {} configuration bytes, {} configured{}", d.pdu.len(), n, if d.pdu.len() == n { " (contents differ)" } else { "" })); }
+                }
+                _ => {
+                    if d.h.dsap.is_some() { return Err(format!("DSAP {:?} on Data_Exchange", d.h.dsap)); }
+                    if d.pdu != &data[..] { return Err(format!("Data_Exchange carries {} output bytes, the output image has {}{}", d.pdu.len(), n, if d.pdu.len() == n { " (contents differ)" } else { "" })); }
+                }
+            }
+            Ok(())
+        });
+        match res { Ok(r) => r, Err(_) => Err("panic".into()) }
+    };
+    let name = |k: u8| match k { 0 => "user_parameters", 1 => "config", _ => "outputs" };
+    if args.len() == 2 {
+        let (k, n): (u8, usize) = (args[0].parse().unwrap(), args[1].parse().unwrap());
+        let r = one(k, n);
+        return vec![format!("{{\"oracle\":\"c03_lengths\",\"status\":\"{}\",\"input\":[{k},{n}],\"observed\":\"{}\"}}", if r.is_ok() { "pass" } else { "fail" }, r.err().unwrap_or_default().replace('"', "'"))];
+    }
+    let mut evals = 0u64;
+    for (k, max) in [(0u8, 237usize), (1, 244), (2, 244)] {
+        for n in 0..=max {
+            evals += 1;
+            if let Err(e) = one(k, n) {
+                return vec![format!("{{\"oracle\":\"c03_lengths\",\"status\":\"fail\",\"input\":[{k},{n}],\"observed\":\"{} length {}: {}\",\"evaluations\":{evals}}}", name(k), n, e.replace('"', "'"))];
+            }
+        }
+    }
+    vec![format!("{{\"oracle\":\"c03_lengths\",\"status\":\"pass\",\"evaluations\":{evals}}}")]
+}
